@@ -79,7 +79,10 @@ def tables(tier):
          "cust_2f": b(SysName="cust", NT=5, Vals={0, 1}, MaxFaults=2, MaxRun=3),
          # Differential Evolution Hyperband on the same bracket manager (pause / resume only in the very first bracket)
          "de31": b(SysName="de31", NT=6, DE=True, Vals={0, 1}), "de31_nopr_max": b(SysName="de31", NT=6, DE=True, PR=False, IsMin=False, MRA=False, Vals={0, 1}),
-         "de321": b(SysName="de321", NT=7, DE=True, Vals={0, 1}, Faults=False)}
+         "de321": b(SysName="de321", NT=7, DE=True, Vals={0, 1}, Faults=False),
+         # fewer brackets per iteration than rung levels: the second iteration starts again with the full first bracket
+         "de321one": b(SysName="de321one", NT=9, DE=True, Vals={0}, Faults=False, MaxRun=1),
+         "de321two": b(SysName="de321two", NT=9, DE=True, Vals={0, 1}, Faults=False, MaxRun=1)}
     if tier == "thorough":
         t["hb421_3w"] = b(SysName="hb421", NT=7, Vals={0, 1}, MaxRun=3)
         t["cust_2f_deep"] = b(SysName="cust", NT=6, Vals={0, 1, 2}, MaxFaults=2, MaxRun=3)
@@ -141,7 +144,8 @@ def run(rep, tier, seed):
         if r.violated:
             rep.violation({"check": "mc", "invariant": r.violated, "config": name},
                           {"trace": tlc.short_trace(r, keys=("flags", "B", "st"))})
-        g = gen(c, 14 if tier == "quick" else 20, 25 if tier == "quick" else 300, seed * 131 + len(name))
+        glen = (14 if tier == "quick" else 20) if c["NT"] < 9 else 34       # (long enough to reach the second iteration)
+        g = gen(c, glen, 25 if tier == "quick" else 300, seed * 131 + len(name))
         cnt = drive_validate(rep, g.gen, c, FLAGS, f"simulate:{name}", seed * 1000)
         for k, v in cnt.items():
             total[k] = total.get(k, 0) + v
